@@ -266,6 +266,9 @@ class TriggerHandlerDecorator(Decorator, ABC):
     async def handle_dispatch(self, data: DispatchData) -> bool | None:
         """Handle a trigger dispatch call. Return False for stop dispatching."""
 
+    def dispatch_accepted(self, data: DispatchData) -> None:  # noqa: B027
+        """Note that every trigger handler has let this dispatch pass: the function is going to run."""
+
 
 class CallHandlerDecorator(Decorator, ABC):
     """Base class for call-based handlers."""
